@@ -55,6 +55,7 @@ Definition model (t : tree) : option (list Z) :=
   (* the operators and the totals at other integer result types: the same order, the same sum *)
   | L [A 14; A _; A pol; A a; A b] =>
       Some (expect (Some (if pol =? 0 then score_cmp a b else error_cmp a b)) (a =? b) true)
+  | L [A 18; A _; l] => olet l := tlist tZ l in Some (total (results_from l) :: cases (results_from l))
   | L [A 15; A _; l] => olet l := tlist tZ l in
       Some (total (results_from l) :: total (results_from l) :: cases (results_from l))
   | L [A 12; L [ga; ra]; L [gb; rb]] =>
@@ -74,9 +75,12 @@ Definition judge (t : tree) : option (list Z) :=
      those are comparable; == structural (with equal genomes for the individuals) *)
   | L [L [A 16; A pol; la; lb]; o] =>
       olet la := tlist tZ la in olet lb := tlist tZ lb in olet o := tlist tZ o in
-      let (fa, fb) := (map of_bits la, map of_bits lb) in
+      (* [3] error collections / [4] individuals compared with THEMSELVES: still by the total - a NaN total is not even
+         comparable (or equal) to itself *)
+      let self := (3 <=? pol) in
+      let (fa, fb) := (map of_bits la, if self then map of_bits la else map of_bits lb) in
       let z := fzero true in
-      Some [if zlist_eqb o (expect (fresults_pcmp (pol =? 1) z fa fb) (fresults_eqb z fa fb) false) then 0 else 2]
+      Some [if zlist_eqb o (expect (fresults_pcmp ((pol =? 1) || (pol =? 3)) z fa fb) (fresults_eqb z fa fb) false) then 0 else 2]
   (* no total order on TestResult: [not Ord; 2 (no cmp); control: i64 is Ord; cmp 1 2 = Less] *)
   | L [L [A 17]; o] => olet o := tlist tZ o in Some [if zlist_eqb o [0; 2; 1; -1] then 0 else 2]
   | L [L [A 13; A _; l]; o] => olet l := tlist tZ l in olet o := tlist tZ o in
